@@ -9,6 +9,8 @@ def pause_scenarios(seed, per):
     rnd = random.Random(seed)
     scs = scenarios.sampler_scenarios(seed, per, "none")
     for sc in scs:
+        if sc.get("keep_script"):      # the long-pause runs keep their own script and delays
+            continue
         ops = []
         n = rnd.choice([1, 1, 2, 3])
         for _ in range(n):
